@@ -97,7 +97,7 @@ def flow_step(ctx, cfg):
         if cfg.get("solver") == "fast_diagonalisation":
             n = int(np.prod(cfg["shape"]))
             for i in range(3):
-                res = neumann_neg_laplacian(psi_impl[i], dx)
+                res = neumann_neg_laplacian(psi_impl[i], float(dx))
                 close_array(ctx, f"C:neumann_residual[{i}]", res, r["w1"][i] - _sum(r["w1"][i]) / n, tol * 1e3)
                 close(ctx, f"C:zero_mean[{i}]", _sum(psi_impl[i]) / n, 0.0, tol)
         elif dim == 2:
